@@ -64,5 +64,5 @@ theorem C19_kept_level_behaves (s s' : List (St F) → Option (Nat × Nat)) (cs 
     (links : List (PinRef × PinRef)) (exposed : List (String × PinRef)) (w : HNet.WFTree (.node cs links exposed))
     (c c' : CompD F) (hs : HNet.solveH s (.node cs links exposed) = .ok c)
     (hs' : HNet.solveH s' (HNet.keepLevel (.node cs links exposed)) = .ok c') :
-    (∀ x ∈ c'.pins, x ∈ c.pins) ∧ ∀ x ∈ c'.pins, ∀ y ∈ c'.pins, c'.sem x y = c.sem x y :=
+    c'.pins = c.pins ∧ ∀ x ∈ c.pins, ∀ y ∈ c.pins, c'.sem x y = c.sem x y :=
   HNet.keep_preserves s s' cs links exposed w c c' hs hs'
